@@ -539,4 +539,93 @@ theorem stvStep_cases (cfg : STVCfg) (init : Profile) (q : Int) (ω : STVOracle)
         | oracleMismatch => simp [hlc, bind, Outcome.bind] at h
         | outOfFuel => simp [hlc, bind, Outcome.bind] at h
 
+/-! ### every successful step removes a hopeful candidate -/
+
+/-- a round in which somebody reaches the threshold elects somebody -/
+theorem electChoice_nonempty (cfg : STVCfg) (q : Int) (ω : STVOracle) (rnd : Nat) (S : CState) (prev : RoundState)
+    (g : Ranking) (tbs : List (List Cand × Ranking)) (hl : Linked S prev) (hn : S.hopeful.Nodup)
+    (habove : (prev.scores.filter (fun cs => decide ((q : Rat) ≤ cs.2))).isEmpty = false)
+    (h : electChoice cfg q ω rnd S prev = .ok (g, tbs)) : 0 < g.flatten.length := by
+  have hk : (prev.scores.map (·.1)).Nodup := by rw [hl.1, tallies_keys]; exact hn
+  have hkeys : prev.scores.map (·.1) = S.hopeful := by rw [hl.1, tallies_keys]
+  have hperm : prev.remaining.flatten.Perm S.hopeful := by
+    rw [hl.2]
+    have := scoreToRanking_perm prev.scores
+    rwa [hkeys] at this
+  unfold electChoice at h
+  split at h
+  · simp only [pure, Outcome.ok.injEq, Prod.mk.injEq] at h
+    obtain ⟨h1, _⟩ := h
+    subst h1
+    -- somebody is above the threshold, so the ranking is non-empty and its first group passes the test
+    obtain ⟨cs, hcs⟩ : ∃ cs, cs ∈ prev.scores.filter (fun cs => decide ((q : Rat) ≤ cs.2)) := by
+      cases hf : prev.scores.filter (fun cs => decide ((q : Rat) ≤ cs.2)) with
+      | nil => rw [hf] at habove; simp at habove
+      | cons x _ => exact ⟨x, by simp⟩
+    obtain ⟨hmem, hq⟩ := List.mem_filter.1 hcs
+    cases hr : scoreToRanking prev.scores with
+    | nil =>
+      have := scoreToRanking_perm prev.scores
+      rw [hr] at this
+      have hnil : prev.scores.map (·.1) = [] := by simpa using this.symm.eq_nil
+      have : cs.1 ∈ prev.scores.map (·.1) := List.mem_map_of_mem hmem
+      rw [hnil] at this; cases this
+    | cons g1 rest =>
+      obtain ⟨v1, hg1, hmax⟩ := first_group_max prev.scores g1 rest hr hk
+      have hg1ne : g1 ≠ [] := scoreToRanking_groups_nonempty prev.scores g1 (by rw [hr]; simp)
+      rw [hl.2, hr]
+      cases g1 with
+      | nil => exact absurd rfl hg1ne
+      | cons c0 tl =>
+        have hq1 : (q : Rat) ≤ lookupScore prev.scores c0 := by
+          rw [(hg1 c0 (by simp)).2]
+          exact le_trans (by simpa using hq) (hmax cs hmem)
+        simp [List.takeWhile_cons, hq1]
+  · cases he : electFromRanking (ω.pri rnd) prev.remaining 1 (some (currentProfile S)) cfg.tiebreak with
+    | ok r =>
+      simp only [he, bind, Outcome.bind, pure, Outcome.ok.injEq, Prod.mk.injEq] at h
+      obtain ⟨h1, _⟩ := h
+      subst h1
+      have hrn : prev.remaining.flatten.Nodup := hperm.nodup_iff.2 hn
+      have hnd : ∀ x ∈ prev.remaining, x.Nodup := fun x hx => (List.nodup_flatten.1 hrn).1 x hx
+      have hsub : ∀ p, some (currentProfile S) = some p → p.cands.Nodup ∧ ∀ x ∈ prev.remaining, ∀ c ∈ x, c ∈ p.cands := by
+        intro p hp
+        injection hp with hp; subst hp
+        exact ⟨hn, fun x hx c hc => hperm.mem_iff.1 (List.mem_flatten.2 ⟨x, hx, hc⟩)⟩
+      rw [(electFromRanking_count _ _ _ _ _ r hnd hsub he).1]; exact Nat.one_pos
+    | raised e => simp [he, bind, Outcome.bind] at h
+    | oracleMismatch => simp [he, bind, Outcome.bind] at h
+    | outOfFuel => simp [he, bind, Outcome.bind] at h
+
+/-- **Progress.** While seats are open, a successful step leaves strictly fewer hopeful candidates. -/
+theorem stvStep_decreases (cfg : STVCfg) (init : Profile) (q : Int) (ω : STVOracle) (rnd : Nat)
+    (S S' : CState) (prev r : RoundState) (recs : List RoundState)
+    (hi : init.cands.Nodup) (hcs : ∀ c ∈ S.hopeful, c ∈ init.cands)
+    (inv : StvInv init.cands S prev recs) (hl : Linked S prev) (hm : S.nElected ≠ cfg.m)
+    (h : stvStep cfg init q ω rnd S prev = .ok (S', r)) : S'.hopeful.length < S.hopeful.length := by
+  rcases stvStep_cases cfg init q ω rnd S S' prev r h with
+    ⟨g, tbs, bs', habove, he, _, _, hSh, _, _, _, _⟩ |
+    ⟨_, hSh, _, _, hlen, hle, _, _, _⟩ |
+    ⟨_, lowest, c, tbs, hlast, hlc, _, hSh, _, _, _⟩
+  · obtain ⟨hWn, hWs⟩ := electChoice_spec cfg q ω rnd S prev g tbs inv.hop_nodup inv.rem he
+    have hpos := electChoice_nonempty cfg q ω rnd S prev g tbs hl inv.hop_nodup habove he
+    have := (filter_not_contains_perm S.hopeful g.flatten inv.hop_nodup hWn hWs).length_eq
+    simp only [List.length_append] at this
+    rw [hSh]; omega
+  · rw [hSh]
+    simp only [List.length_nil]
+    by_contra hcon
+    have : S.hopeful.length = 0 := by omega
+    omega
+  · have hrn : prev.remaining.flatten.Nodup := inv.rem.nodup_iff.2 inv.hop_nodup
+    have hlm : lowest ∈ prev.remaining := List.mem_of_getLast? hlast
+    have hln : lowest.Nodup := (List.nodup_flatten.1 hrn).1 lowest hlm
+    have hlh : ∀ x ∈ lowest, x ∈ S.hopeful := fun x hx =>
+      inv.rem.mem_iff.1 (List.mem_flatten.2 ⟨lowest, hlm, hx⟩)
+    have hc : c ∈ S.hopeful :=
+      hlh c (loserChoice_mem init ω rnd lowest c tbs hln hi (fun x hx => hcs x (hlh x hx)) hlc)
+    have := (filter_ne_perm S.hopeful c inv.hop_nodup hc).length_eq
+    simp only [List.length_append, List.length_cons, List.length_nil] at this
+    rw [hSh]; omega
+
 end VK
